@@ -230,7 +230,13 @@ class BuiltWorld:
             lines.append(f"        return R_{mid}")
             lines.append("    BUDGET[0] -= 1")
             lines.append(f"    _e[3] = ([{pos}], {{{kwd}}})")
-            lines.append(f"    return {callee}({al})")
+            if body.get("guard"):
+                lines.append("    try:")
+                lines.append(f"        return {callee}({al})")
+                lines.append("    except TypeError:")
+                lines.append(f"        return R_{mid}")
+            else:
+                lines.append(f"    return {callee}({al})")
         else:
             raise ValueError(f"unknown body {body}")
         return "\n".join(lines) + "\n"
